@@ -393,7 +393,9 @@ def check_C02(ctx):
         if not ok and b.status[i] == 'disagree':
             label_numeric_disagreement(rep, b, i)
         o = core.parse_outcome(b.impl[i])
-        if o[0] == 'VAL' and not sx.is_finite_num(o[1]) and b.status[i] != 'range':
+        if b.status[i] == 'range':
+            continue
+        if o[0] == 'VAL' and not sx.is_finite_num(o[1]):
             rep.oracle_fail('non-finite value returned: %s' % b.impl[i], b, [i])
         if o[0] == 'PYERR' and 'Overflow' not in o[1]:
             rep.oracle_fail('foreign exception %s' % o[1], b, [i])
@@ -559,6 +561,10 @@ def check_routes(ctx, prop):
                       'C06': ['REV', 'DIFFAT', 'PEARLY', 'DEARLYAT', 'DEARLYALL', 'DERIV']}[prop]
             for r in routes:
                 if r not in idx:
+                    continue
+                if r in ('DERIV', 'DERIVNUM') and sx.var_ids(e) not in ([v], []):
+                    continue      # Derivative differentiates w.r.t. the expression's own variable
+                if r == 'DERIVNUM' and (not p or p[0][0] != v):
                     continue
                 o = route_value(b, idx, r, v)
                 if o[0] == 'REJECT':
